@@ -70,6 +70,13 @@ pub fn gen_items(rng: &mut Rng, max_items: usize, chunk: usize, max_payload: usi
 }
 
 pub fn gen_name(rng: &mut Rng, allow_slash_end: bool) -> String {
+    if rng.chance(1, 6) {
+        // decorations players and servers know: container prefixes, extensions, instance names,
+        // query strings - a name is a name, byte for byte
+        return rng
+            .pick(&["mp4:sample.mp4", "flv:stream", "mp3:track", "MP4:Upper.mp4", "mp4:", "key.flv", "key.mp4", "key.f4v", "_definst_/key", "app/_definst_", "key?auth=abc", "@live", "rtmp://host/app/key", "live ", " live", "LIVE", "key#frag", "..", "a/../b"])
+            .to_string();
+    }
     match rng.below(8) {
         0 => "live".to_string(),
         1 => "a".to_string(),
@@ -200,16 +207,42 @@ impl Check for C02 {
     fn plan(&self, tier: Tier) -> Plan {
         let mut p = Plan::new(tier.pick(40_000, 4_000_000), tier.pick(30.0, 420.0));
         p.cpu_budget_s = 120.0;
+        p.mandatory = 2;
         p
     }
     fn run_case(&self, tier: Tier, k: u64, rng: &mut Rng, out: &mut Out) {
         let _cg = ClockGuard;
-        let sc = gen_scenario(rng, tier == Tier::Thorough && k % 20 == 0);
+        let mut sc = gen_scenario(rng, tier == Tier::Thorough && k % 20 == 0);
+        if k < 2 {
+            // more than 16 MiB (the largest single message) arriving in ONE input call: 280 items
+            // of 64 KiB pushed in one burst, everything available delivered at once
+            sc.mode = if k == 0 { Mode::PublishLive } else { Mode::Play };
+            sc.client_cfg.chunk_size = 60_000;
+            sc.server_cfg.chunk_size = 60_000;
+            sc.client_cfg.window_ack_size = 2_500_000;
+            sc.server_cfg.window_ack_size = 2_500_000;
+            sc.sched = 1;
+            sc.burst = 1000;
+            sc.accept_delay = 0;
+            let a = rng.next();
+            sc.items = (0..280u32)
+                .map(|i| {
+                    let data: Vec<u8> = (0..65_536usize).map(|j| ((j as u64).wrapping_mul(0x9E37_79B9).wrapping_add(a + i as u64) >> 13) as u8).collect();
+                    if i % 7 == 3 {
+                        Item::Audio { data, ts: 40 * i, drop: false }
+                    } else {
+                        Item::Video { data, ts: 40 * i, drop: false }
+                    }
+                })
+                .collect();
+            out.count("scenarios_with_more_than_16_MiB_in_one_call", 1);
+        }
         out.eval(1);
         let o = sessdrv::run_scenario(&sc, rng, false);
         out.count("handle_input_calls", o.handle_input_calls);
         out.count("scheduler_steps", o.steps);
         out.maxv("max_bytes_client_to_server", o.bytes_c2s);
+        out.maxv("largest_single_input_call_bytes", o.largest_input_call);
         out.maxv("max_bytes_server_to_client", o.bytes_s2c);
         if check_outcome(&sc, &o, out) {
             out.count("scenarios_completed", 1);
@@ -246,7 +279,7 @@ impl Check for C02 {
         out.sample(|| json!({"scenario": sessdrv::scenario_json(&sc), "steps": o.steps, "bytes_c2s": o.bytes_c2s, "bytes_s2c": o.bytes_s2c, "completed": o.completed}));
     }
     fn rule(&self) -> String {
-        "one scripted scenario per case: connect(app) -> publish(key, live|record|append) or play(key) -> 0-14 (thorough: up to 60) items {metadata | audio | video} with payload sizes {0, 1, chunk-1, chunk, chunk+1, 64 KiB, 200 KiB, random} and arbitrary u32 timestamps (rising, falling, wrapping), droppable flags set but nothing dropped -> stop. Client and server chunk sizes from {1,2,3,127,128,129,4096,65536,2^24-1,2^24,2^31-1, uniform}; window sizes from {1,2,100,5000,2.5M,2^30,2^31,2^32-1}; random peer bandwidth, buffer length, onBWDone on/off, tcUrl. Scheduler styles: byte-by-byte, everything available, random pieces, mixed, and two starvation patterns; server application accepts after 0-40 steps; sender bursts of 1-100 items. distinct = (mode, chunk-size class pair, window class pair, item size classes, scheduler).".to_string()
+        "cases 0 and 1: 280 items of 64 KiB pushed in one burst and delivered in one input call (more than 16 MiB at once), publish and play. Otherwise one scripted scenario per case: connect(app) -> publish(key, live|record|append) or play(key) -> 0-14 (thorough: up to 60) items {metadata | audio | video} with payload sizes {0, 1, chunk-1, chunk, chunk+1, 64 KiB, 200 KiB, random} and arbitrary u32 timestamps (rising, falling, wrapping), droppable flags set but nothing dropped -> stop. Client and server chunk sizes from {1,2,3,127,128,129,4096,65536,2^24-1,2^24,2^31-1, uniform}; window sizes from {1,2,100,5000,2.5M,2^30,2^31,2^32-1}; random peer bandwidth, buffer length, onBWDone on/off, tcUrl. Scheduler styles: byte-by-byte, everything available, random pieces, mixed, and two starvation patterns; server application accepts after 0-40 steps; sender bursts of 1-100 items. distinct = (mode, chunk-size class pair, window class pair, item size classes, scheduler).".to_string()
     }
     fn assumptions(&self) -> Vec<String> {
         vec![
@@ -259,6 +292,7 @@ impl Check for C02 {
     fn required_counters(&self, _tier: Tier) -> Vec<String> {
         vec![
             "scenarios_completed".into(),
+            "scenarios_with_more_than_16_MiB_in_one_call".into(),
             "mode_Play".into(),
             "mode_PublishLive".into(),
             "mode_PublishRecord".into(),
